@@ -492,6 +492,8 @@ SWEEP_KINDS = {
     'r1': dict(ducts='1', structure='bundle'),
     'r2': dict(ducts='2f', structure='bundle'),
     'r3': dict(ducts='3', structure='bundle'),
+    'r2s': dict(ducts='2s', structure='bundle'),       # stagnant bypass gap
+    'r3s': dict(ducts='3s', structure='bundle'),
     'lf-simple': dict(ducts='1', structure='lf-simple'),
     'multi': dict(ducts='1', structure='multi'),        # simple region, bundle, 6-node region
     'multi2': dict(ducts='2f', structure='multi'),
